@@ -5,7 +5,13 @@
     What is proved about the MODELS (exact arithmetic):
     - Jolt, 2 points: [C18_jolt_line_correct] -- all real inputs, every arm;
     - Jolt, 3 points, non-degenerate branch: [C18_jolt_triangle_correct] -- all real inputs, all 7 arms;
+      degenerate branch: [C18_jolt_triangle_degenerate_partial] (best of the three edges up to EPSILON);
+    - Jolt, 4 points: [C18_jolt_tetra_structure] (all real inputs), [C18_jolt_tetra_inside] (origin
+      strictly inside beyond the +-EPSILON band), [C18_jolt_tetra_outside_partial] (non-degenerate
+      tetrahedron and faces, origin strictly outside: exact);
     - original, 1-4 points: [C18_orig_backup_valid] -- all real inputs: weights, order, subset;
+      2 points: [C18_orig_segment_optimal] -- all real inputs: minimum-norm point;
+      3 affinely independent points: [C18_orig_face_optimal_partial] -- minimum-norm point;
     - both solvers, every configuration of 1-4 points with coordinates in {-1,0,1}
       (551 880 configurations, all degeneracies and region boundaries): exact optimum, subset,
       weights: [C18_jolt_lattice_exact], [C18_jolt_lattice4_exact], [C18_orig_lattice_exact],
@@ -13,15 +19,18 @@
     - the property is FALSE for both models on small well-conditioned tetrahedra (absolute
       thresholds): [C18_orig_backup_refuted], [C18_jolt_refuted].
     Missing (not proved for all real inputs): Jolt degenerate-triangle arm beyond "best of three
-    edges up to EPSILON" and the Jolt tetrahedron; global optimality of the original solver's
-    result (Johnson's theorem: the carrier of the optimum has all cofactors positive, and a
-    candidate with all cofactors positive is the projection on its affine hull).
+    edges up to EPSILON"; Jolt tetrahedron with the origin inside but within the EPSILON band of a
+    plane test (false there: [C18_jolt_refuted]), degenerate tetrahedra (mixed orientation signs)
+    and degenerate faces; global optimality of the original solver's result for 4 points and for
+    affinely dependent triples (Johnson's theorem: the carrier of the optimum has all cofactors
+    positive, and a candidate with all cofactors positive is the projection on its affine hull)
+    -- false for small tetrahedra: [C18_orig_backup_refuted].
     What judges the IMPLEMENTATION on every generated input: the certificates, whose soundness is
     [C18_kkt_cert_sound], [C18_cert_z_sound], [C18_cert_z_min_norm], [C18_bary_z_sound]. *)
 From Coq Require Import List NArith ZArith QArith Reals Lra.
 From D3 Require Import Base.Ops Base.Vec Base.RVec Spec.Convex Spec.ConvexHull
   Model.Simplex Model.SimplexOrig Model.SimplexRun Checker.Kkt Checker.KktZ
-  Proofs.SimplexLine Proofs.SimplexTriangle Proofs.SimplexOrig Proofs.SimplexLattice
+  Proofs.SimplexLine Proofs.SimplexTriangle Proofs.SimplexTetra Proofs.SimplexOrig Proofs.SimplexOrigFace Proofs.SimplexLattice
   Proofs.SimplexLattice4 Proofs.SimplexRefuted.
 Import ListNotations.
 Local Open Scope R_scope.
@@ -109,6 +118,70 @@ Example C18_jolt_triangle_nonvacuous :
                    (cross (vsub (V 0 1 0) (V 1 0 0)) (vsub (V 0 0 1) (V 1 0 0))).
 Proof. rewrite eps_val. vunfold. cbn [vx vy vz]. lra. Qed.
 
+(** degenerate branch: PARTIAL -- in the hull of the returned subset, within EPSILON of the
+    minimum over the three edges; nothing about interior points of the triangle *)
+Theorem C18_jolt_triangle_degenerate_partial : forall a b c : V3R,
+  dot (cross (vsub b a) (vsub c a)) (cross (vsub b a) (vsub c a)) < eps * eps ->
+  let r := @closest_point_triangle R ROps a b c in
+  tri_set_ok (snd r) /\
+  conv_hull (update_simplex_y [a; b; c] 3 (snd r)) (fst r) /\
+  conv_hull [a; b; c] (fst r) /\
+  forall x, (conv_hull [a; b] x \/ conv_hull [a; c] x \/ conv_hull [b; c] x) ->
+            norm (fst r) <= norm x + eps.
+Proof. exact jolt_triangle_degenerate_partial. Qed.
+Print Assumptions C18_jolt_triangle_degenerate_partial.
+
+Example C18_jolt_triangle_degenerate_nonvacuous :
+  dot (cross (vsub (V 2 0 0) (V 1 0 0)) (vsub (V 3 0 0) (V 1 0 0)))
+      (cross (vsub (V 2 0 0) (V 1 0 0)) (vsub (V 3 0 0) (V 1 0 0))) < eps * eps.
+Proof. pose proof eps_pos. vunfold. cbn [vx vy vz]. nra. Qed.
+
+(** ** Jolt solver: four points *)
+(** all real inputs: the origin with all four bits iff no face is examined, else the result of
+    closest_point_triangle on an examined face with the smallest squared norm among those *)
+Theorem C18_jolt_tetra_structure : forall a b c d : V3R,
+  let r := @closest_point_tetrahedron R ROps a b c d in
+  (forall i, (i < 4)%nat -> dot (fst (tcand a b c d i)) (fst (tcand a b c d i)) < maxf) ->
+  ((forall i, (i < 4)%nat -> texamined a b c d i = false) /\ r = (vzero, 15%N)) \/
+  (exists i, (i < 4)%nat /\ texamined a b c d i = true /\ r = tcand a b c d i /\
+             forall j, (j < 4)%nat -> texamined a b c d j = true ->
+                       dot (fst r) (fst r) <= dot (fst (tcand a b c d j)) (fst (tcand a b c d j))).
+Proof. exact tetra_structure. Qed.
+Print Assumptions C18_jolt_tetra_structure.
+
+(** origin strictly inside, beyond the band of every plane test: exact *)
+Theorem C18_jolt_tetra_inside : forall a b c d : V3R,
+  (0 < V6 a b c d /\ sp0 a b c d < - eps /\ sp1 a b c d < - eps /\ sp2 a b c d < - eps /\ sp3 a b c d < - eps) \/
+  (V6 a b c d < 0 /\ eps < sp0 a b c d /\ eps < sp1 a b c d /\ eps < sp2 a b c d /\ eps < sp3 a b c d) ->
+  @closest_point_tetrahedron R ROps a b c d = (vzero, 15%N) /\
+  conv_hull (update_simplex_y [a; b; c; d] 4 15) vzero /\ is_min_norm [a; b; c; d] vzero.
+Proof. exact jolt_tetra_inside. Qed.
+Print Assumptions C18_jolt_tetra_inside.
+
+(** non-degenerate tetrahedron with non-degenerate faces, origin strictly outside: exact.
+    PARTIAL with respect to all inputs: excludes the origin inside-but-within-the-band (where the
+    model is wrong), degenerate tetrahedra/faces and squared norms >= MAX_FLOAT *)
+Theorem C18_jolt_tetra_outside_partial : forall a b c d : V3R,
+  let nsq (u v w : V3R) := dot (cross (vsub v u) (vsub w u)) (cross (vsub v u) (vsub w u)) in
+  eps * eps <= nsq a b c -> eps * eps <= nsq a c d -> eps * eps <= nsq a d b -> eps * eps <= nsq b d c ->
+  dot a a < maxf -> dot b b < maxf -> dot c c < maxf -> dot d d < maxf ->
+  (0 < V6 a b c d /\ (0 < sp0 a b c d \/ 0 < sp1 a b c d \/ 0 < sp2 a b c d \/ 0 < sp3 a b c d)) \/
+  (V6 a b c d < 0 /\ (sp0 a b c d < 0 \/ sp1 a b c d < 0 \/ sp2 a b c d < 0 \/ sp3 a b c d < 0)) ->
+  let r := @closest_point_tetrahedron R ROps a b c d in
+  conv_hull (update_simplex_y [a; b; c; d] 4 (snd r)) (fst r) /\ is_min_norm [a; b; c; d] (fst r).
+Proof. exact jolt_tetra_outside. Qed.
+Print Assumptions C18_jolt_tetra_outside_partial.
+
+Example C18_jolt_tetra_outside_nonvacuous :
+  let a := V 1 0 0 in let b := V 2 0 0 in let c := V 1 1 0 in let d := V 1 0 1 in
+  0 < V6 a b c d /\ 0 < sp1 a b c d /\
+  eps * eps <= dot (cross (vsub b a) (vsub c a)) (cross (vsub b a) (vsub c a)) /\ dot b b < maxf.
+Proof.
+  cbv zeta. pose proof eps_pos as Hp. pose proof eps_val as Hv. pose proof maxf_big as Hm.
+  assert (He : eps * eps <= 1) by (rewrite Hv; lra).
+  unfold V6, sp1. vunfold. cbn [vx vy vz]. repeat split; lra.
+Qed.
+
 (** ** original solver's backup procedure: all real inputs, 1-4 points: the returned weights are
        non-negative, sum to 1, reproduce the returned point from the selected points in the
        returned order; indices distinct and in range; squared distance = |point|^2 *)
@@ -118,6 +191,31 @@ Theorem C18_orig_backup_valid : forall (Y : list V3R) r,
   conv_hull (map (pt Y) (b_ord r)) (s_v (b_sol r)) /\ conv_hull Y (s_v (b_sol r)).
 Proof. intros Y r H. split; [exact (backup_valid Y r H)|exact (backup_in_hull Y r H)]. Qed.
 Print Assumptions C18_orig_backup_valid.
+
+(** two points: the returned point is a minimum-norm point of the segment, all real inputs *)
+Theorem C18_orig_segment_optimal : forall y0 y1 : V3R,
+  let r := @backup_procedure_line_segment R ROps [y0; y1] in
+  is_min_norm [y0; y1] (s_v (b_sol r)).
+Proof. exact backup_segment_optimal. Qed.
+Print Assumptions C18_orig_segment_optimal.
+
+(** three affinely independent points: the returned point is the minimum-norm point of the
+    triangle, all such real inputs (Johnson's theorem for the face).  PARTIAL: collinear triples and
+    duplicates are covered only on the lattice *)
+Theorem C18_orig_face_optimal_partial : forall a b c : V3R,
+  let g11 := dot (vsub b a) (vsub b a) in
+  let g12 := dot (vsub b a) (vsub c a) in
+  let g22 := dot (vsub c a) (vsub c a) in
+  0 < g11 * g22 - g12 * g12 ->
+  let r := @backup_procedure_face R ROps [a; b; c] in
+  is_min_norm [a; b; c] (s_v (b_sol r)).
+Proof. exact backup_face_optimal_partial. Qed.
+Print Assumptions C18_orig_face_optimal_partial.
+
+Example C18_orig_face_nonvacuous :
+  let a := V 1 0 0 in let b := V 0 1 0 in let c := V 0 0 1 in
+  0 < dot (vsub b a) (vsub b a) * dot (vsub c a) (vsub c a) - dot (vsub b a) (vsub c a) * dot (vsub b a) (vsub c a).
+Proof. cbv zeta. vunfold. cbn [vx vy vz]. lra. Qed.
 
 Example C18_orig_backup_nonvacuous :
   exists r, @backup_procedure R ROps [V 1 0 0; V 0 1 0; V 0 0 1; V 1 1 1] = Some r.
